@@ -4,7 +4,7 @@ Decides: both directions of the parent/child relation are edited together (PAIR-
 and the set of functions that can write the relation is closed (WHO-link)."""
 import re
 from ir import Program, callee_of, has_field, ends_in_field
-from flow import origins, is_local_op, call_matches, must_pass, iter_uses, forward_taint, resolve_place
+from flow import origins, is_local_op, call_matches, must_pass, iter_uses, forward_taint, resolve_place, switch_edges_on_call_result
 import events as E
 from pairing import paired, dominated_by, followed_on_ok_paths, calls, always_calls
 from framework import Check
@@ -216,6 +216,45 @@ def run(ctx):
 
     import scope
     scope.closed_world(C, P, 'C03-WHO-link')
+    # ---- enumeration: the tree iterators end a level only when the position has reached the item count ----
+    C.rule('C03-MUST-enumerate', 'the element-tree iterators leave a level (ElementsDfsIterator: pop; ElementsIterator: return None) only behind the comparison of the position with the number of content items (or the depth limit); '
+           'a content item that is not an element (text in mixed content) is skipped, it does not end the level')
+    from flow import deep_sources as _ds
+    di = P.get('<ElementsDfsIterator as Iterator>::next')
+    pops = [pos for pos, t in di.iter_calls() if call_matches(t, r'Vec::<T, A>::pop$') and (lambda rp: rp is not None and has_field(rp, 'ElementsDfsIterator.elements'))(E.recv_place(di, t))]
+    gates = []
+    for pos, tt in di.iter_terms():
+        if tt['k'] == 'switch' and is_local_op(tt['d']):
+            for q, st in __import__('flow').defs_of(di, tt['d']['l']):
+                if st['k'] == 'assign' and st['rv']['k'] == 'bin' and st['rv']['op'] in ('Gt', 'Lt', 'Ge', 'Le', 'Eq', 'Ne'):
+                    src = set()
+                    for o in (st['rv']['a'], st['rv']['b']):
+                        if is_local_op(o):
+                            n_, c_, f_ = _ds(di, o, depth=10)
+                            src |= {c.rsplit('::', 1)[-1] for c in c_} | {f.split('.')[-1] for f in f_}
+                    if 'content_item_count' in src or 'max_depth' in src or 'len' in src and 'position' in src:
+                        gates.append(pos)
+    if len(pops) != 1 or not gates:
+        C.anchor_missing('C03-MUST-enumerate', 'ElementsDfsIterator::next: elements.pop() / count comparison')
+    else:
+        from pairing import iteration_start
+        okp = must_pass(di, iteration_start(di, pops[0]), [pops[0]], through=set(gates))
+        # and the lookup result is not what ends the level: from the None edge of get_sub_element_at the pop is not reachable within the iteration
+        gs = calls(di, r'impl Element>::get_sub_element_at$')
+        okn = True
+        for g in gs:
+            sw = switch_edges_on_call_result(di, g)
+            if sw:
+                none_t = sw[1].get('0', sw[2])
+                hdr = iteration_start(di, pops[0])
+                if pops[0] in di.reach_from((none_t, 0), include_start=True, avoid={hdr}):
+                    okn = False
+        C.check(okp and okn and bool(gs), 'C03-MUST-enumerate', 'ElementsDfsIterator::next|level-ends-only-at-item-count', 'the depth-first iterator leaves a level because a content item is not an element (get_sub_element_at returned None) instead of because the position reached content_item_count(): '
+                'every sub element behind a text item of a mixed-content element is skipped by elements_dfs() although it is part of the tree', di.where(pops[0]), sample={'fn': 'ElementsDfsIterator::next', 'gate': 'content_item_count() > position'})
+    ei = P.get('<ElementsIterator as Iterator>::next')
+    nones = [pos for pos, s_ in ei.iter_stmts() if s_['k'] == 'assign' and s_['dst']['l'] == 0 and not s_['dst']['p'] and s_['rv']['k'] == 'agg' and s_['rv'].get('var') == 'None']
+    lens = [pos for pos, tt in ei.iter_terms() if tt['k'] == 'switch' and is_local_op(tt['d']) and any(st['k'] == 'assign' and st['rv']['k'] == 'bin' and st['rv']['op'] in ('Lt', 'Gt', 'Ge', 'Le') for q, st in __import__('flow').defs_of(ei, tt['d']['l']))]
+    C.check(bool(nones) and bool(lens) and all(must_pass(ei, (0, 0), [n_], through=set(lens)) for n_ in nones), 'C03-MUST-enumerate', 'ElementsIterator::next|ends-only-at-item-count', 'sub_elements() can end before the index reached the number of content items', '%s:%d' % (ei.file, ei.line))
     # a file merge never links one element twice: an element of the new file is merged into its counterpart OR imported
     C.rule('C03-DEV-merge-disjoint', 'in merge_element an element of the new file is queued for import only over the false edge of "already paired with a model element": otherwise it would stay a child of its old parent content AND be inserted below the model parent (two parents, subtree visited twice)')
     from c09 import dev_bonly
